@@ -205,17 +205,18 @@ def mixed_cases(rnd, n):
     whitespace and keyword case; what each denotes (or that it is excluded) is decided by spec/TextGrammar.tla"""
     owners = ["ex.", "h.ex", ".", "_srv._tcp.ex.", "a-b.c-d.", "1a.2b.", "x" * 62 + ".ex.", "A.B.C.D.E.F.", "xn--bcher-kva.ex.", "a..b.", "x" * 64 + ".", "a!b.", "a_b.ex.", "-a.ex.", "1.2.", "ex..",
               ".".join(["y" * 62] * 3 + ["z" * 60]) + ".", ".".join(["y" * 62] * 3 + ["z" * 61]) + ".", ".".join(["y" * 62] * 4) + "."]
-    ttls = ["0", "1", "60", "007", "2147483647", "2147483648", "4294967295", "4294967296", "42949672950", "99999999999999999999", "", "6x", "-1", "+1", "0x10", "1.5"]
+    pad = lambda v: ["0" * k + v for k in (1, 5, 18, 19, 20, 40)]          # a number stays the same number behind any count of zeros
+    ttls = ["0", "1", "60", "007", "2147483647", "2147483648", "4294967295"] + pad("3600") + pad("4294967295")[3:] + ["4294967296", "42949672950", "99999999999999999999", "", "6x", "-1", "+1", "0x10", "1.5"] + pad("4294967296")[3:]
     classes = ["IN", "in", "In", "iN", "CH", "INN", "I", "1"]
     hosts = ["ns.ex.", "ns.ex", ".", "a.b.c.d.e.f.g.", "MiXeD.Ex.", "x" * 62 + ".", "x" * 63 + ".", "a..b", "bad!", "_dmarc.ex.", "9.ex.", "ex.9"]
-    v4 = ["1.2.3.4", "0.0.0.0", "255.255.255.255", "256.1.1.1", "1.2.3", "1.2.3.4.5", "01.002.3.4", "1.2.3.", ".1.2.3", "1.2.3.a", "1..2.3", "0001.2.3.4", "1.2.3.4x"]
+    v4 = ["1.2.3.4", "0" * 20 + "1.2.3.4", "1.2.3." + "0" * 30 + "4", "0.0.0.0", "255.255.255.255", "256.1.1.1", "1.2.3", "1.2.3.4.5", "01.002.3.4", "1.2.3.", ".1.2.3", "1.2.3.a", "1..2.3", "0001.2.3.4", "1.2.3.4x"]
     v6 = ["::", "::1", "1::", "2001:db8::1", "1:2:3:4:5:6:7:8", "1:2:3:4:5:6:7::", "::2:3:4:5:6:7:8", "1:2:3:4::5:6:7:8", "1:2:3:4:5:6:7", "1:2:3:4:5:6:7:8:9", "1::2::3", ":::", ":1", "1:", "12345::",
           "FFFF:ffff::AbCd", "::ffff:1.2.3.4", "g::1", "0:0:0:0:0:0:0:0", "::0:0:0:0:0:0:0", "1:2:3:4:5:6:7:8::"]
     txts = ['"a"', '"hello world"', '"a\\065b"', '"\\000\\255"', '"\\256"', '"\\25"', '"\\2a5"', '"\\"', '"a\\"b"', '"a" "b"', '"a"b', 'a', '"a', 'a"', '""', '"' + "q" * 255 + '"', '"' + "q" * 256 + '"', '"\t"', '"tab\there"', '" lead and trail "']
-    nums16 = ["0", "10", "65535", "65536", "00010", "", "x", "-1"]
-    nums8 = ["0", "8", "255", "256", "008", "x"]
+    nums16 = ["0", "10", "65535", "65536", "00010", "", "x", "-1"] + pad("65535")[2:] + pad("65536")[4:]
+    nums8 = ["0", "8", "255", "256", "008", "x"] + pad("255")[2:] + pad("256")[4:]
     hexes = ["ab", "ABCDEF01", "abc", "a", "", "abcg", "00" * 20, "0" * 63]
-    soan = ["1", "0", "4294967295", "4294967296", "x", "007"]
+    soan = ["1", "0", "4294967295", "4294967296", "x", "007"] + pad("7")[2:]
     kw = {"A": v4, "AAAA": v6, "NS": hosts, "CNAME": hosts, "PTR": hosts, "TXT": txts}
 
     def ws(minimum=1):
@@ -240,7 +241,7 @@ def mixed_cases(rnd, n):
             rd = "1.2.3.4"
         good_bias = rnd.random() < 0.6          # most texts differ from a valid one in at most a field or two
         owner = rnd.choice(owners[:9]) if good_bias else rnd.choice(owners)
-        ttl = rnd.choice(ttls[:7]) if good_bias else rnd.choice(ttls)
+        ttl = rnd.choice(ttls[:16]) if good_bias else rnd.choice(ttls)
         cls = rnd.choice(classes[:4]) if good_bias else rnd.choice(classes)
         t = ws(0) + owner + ws() + ttl + ws() + cls + ws() + case(ty) + ws() + rd + ws(0)
         if rnd.random() < 0.05:
